@@ -119,24 +119,180 @@ def chunkEol : EolCfg := ⟨true, false, false⟩   -- (CRLF,)
 def sseEol : EolCfg := ⟨true, true, true⟩       -- (CRLF, LF, CR)
 
 /-- earliest end of line, the longer on a tie; a CR that ends the buffer while CRLF is allowed is undecided.
-`some (line, rest)` or `none` (need more bytes) -/
+`some (line, rest)` or `none` (need more bytes).  Mirrors httping.findEol. -/
+def consL (x : Nat) (o : Option (Bytes × Bytes)) : Option (Bytes × Bytes) := o.map (fun p => (x :: p.1, p.2))
+
 def scan (c : EolCfg) : Bytes → Option (Bytes × Bytes)
   | [] => none
-  | [x] =>
-    if x = 10 then (if c.lf then some ([], []) else none)
-    else if x = 13 then (if c.cr && !c.crlf then some ([], []) else none)
-    else none
-  | x :: y :: rest =>
-    if x = 10 then
-      if c.lf then some ([], y :: rest) else (scan c (y :: rest)).map (fun p => (x :: p.1, p.2))
+  | x :: rest =>
+    if x = 10 ∧ c.lf = true then some ([], rest)
     else if x = 13 then
-      if y = 10 && c.crlf then some ([], rest)
-      else if c.cr then some ([], y :: rest)
-      else (scan c (y :: rest)).map (fun p => (x :: p.1, p.2))
-    else (scan c (y :: rest)).map (fun p => (x :: p.1, p.2))
+      match rest with
+      | [] => if c.cr = true ∧ c.crlf = false then some ([], []) else none
+      | y :: rest' =>
+        if y = 10 ∧ c.crlf = true then some ([], rest')
+        else if c.cr = true then some ([], rest)
+        else consL x (scan c rest)
+    else consL x (scan c rest)
 
-/-- bytes at the end of the buffer that may be the start of a longer eol (pendingEol) -/
-def pend (c : EolCfg) (b : Bytes) : Nat := if c.crlf && b.getLast? == some 13 then 1 else 0
+def pend (c : EolCfg) (b : Bytes) : Nat := if c.crlf = true ∧ b.getLast? = some 13 then 1 else 0
+
+theorem consL_some {x : Nat} {o : Option (Bytes × Bytes)} {l r : Bytes} (h : consL x o = some (l, r)) :
+    ∃ l', o = some (l', r) ∧ l = x :: l' := by
+  cases o with
+  | none => simp [consL] at h
+  | some p => obtain ⟨a, b⟩ := p; simp [consL] at h; exact ⟨a, by simp [h.2], h.1.symm⟩
+
+theorem scan_shorter (c : EolCfg) : ∀ (b l r : Bytes), scan c b = some (l, r) → r.length < b.length := by
+  intro b
+  induction b with
+  | nil => intro l r h; simp [scan] at h
+  | cons x rest ih =>
+    intro l r h
+    unfold scan at h
+    split at h
+    · simp at h; obtain ⟨_, rfl⟩ := h; simp
+    · split at h
+      · split at h
+        · split at h <;> simp at h
+          obtain ⟨_, rfl⟩ := h; simp
+        · split at h
+          · simp at h; obtain ⟨_, rfl⟩ := h; simp; omega
+          · split at h
+            · simp at h; obtain ⟨_, rfl⟩ := h; simp
+            · obtain ⟨l', h1, _⟩ := consL_some h
+              have := ih l' r h1; simp at this ⊢; omega
+      · obtain ⟨l', h1, _⟩ := consL_some h
+        have := ih l' r h1; simp at this ⊢; omega
+
+theorem scan_ext (c : EolCfg) : ∀ (b l r m : Bytes), scan c b = some (l, r) → scan c (b ++ m) = some (l, r ++ m) := by
+  intro b
+  induction b with
+  | nil => intro l r m h; simp [scan] at h
+  | cons x rest ih =>
+    intro l r m h
+    unfold scan at h
+    rw [List.cons_append]
+    unfold scan
+    split at h
+    · rename_i hx; simp at h; obtain ⟨rfl, rfl⟩ := h; simp [hx]
+    · rename_i hx
+      simp only [hx, if_false]
+      split at h
+      · rename_i h13
+        subst h13
+        simp only [↓reduceIte]
+        split at h
+        · -- rest = []
+          split at h
+          · rename_i hc; simp at h; obtain ⟨rfl, rfl⟩ := h
+            cases m with
+            | nil => simp [hc]
+            | cons y ms => simp [hc]
+          · simp at h
+        · -- rest = y :: rest'
+          rename_i y rest'
+          simp only [List.cons_append]
+          split at h
+          · rename_i hy; simp at h; obtain ⟨rfl, rfl⟩ := h; simp [hy]
+          · rename_i hy
+            simp only [hy, if_false]
+            split at h
+            · rename_i hcr; simp at h; obtain ⟨rfl, rfl⟩ := h; simp [hcr]
+            · rename_i hcr
+              simp only [hcr, if_false]
+              obtain ⟨l', h1, h2⟩ := consL_some h
+              have := ih l' r m h1
+              rw [List.cons_append] at this
+              simp [this, consL, h2]
+      · rename_i h13
+        simp only [h13, if_false]
+        obtain ⟨l', h1, h2⟩ := consL_some h
+        have := ih l' r m h1
+        simp [this, consL, h2]
+
+theorem pend_cons (c : EolCfg) (x y : Nat) (rest : Bytes) : pend c (x :: y :: rest) = pend c (y :: rest) := by
+  simp [pend, List.getLast?_cons_cons]
+
+theorem pend_le_one (c : EolCfg) (b : Bytes) : pend c b ≤ 1 := by
+  unfold pend; split <;> omega
+
+theorem pend_le_len (c : EolCfg) (b : Bytes) : pend c b ≤ b.length := by
+  unfold pend; split
+  · rename_i h; cases b with
+    | nil => simp at h
+    | cons x xs => simp
+  · omega
+
+theorem consL_none {x : Nat} {o : Option (Bytes × Bytes)} (h : consL x o = none) : o = none := by
+  cases o with
+  | none => rfl
+  | some p => simp [consL] at h
+
+theorem scan_late (c : EolCfg) : ∀ (b l r m : Bytes), scan c b = none → scan c (b ++ m) = some (l, r) →
+    b.length ≤ l.length + pend c b := by
+  intro b
+  induction b with
+  | nil => intro l r m _ _; simp
+  | cons x rest ih =>
+    intro l r m hn hs
+    unfold scan at hn
+    rw [List.cons_append] at hs
+    unfold scan at hs
+    split at hn
+    · simp at hn
+    · rename_i hx
+      simp only [hx, if_false] at hs
+      split at hn
+      · rename_i h13
+        subst h13
+        simp only [↓reduceIte] at hs
+        split at hn
+        · -- rest = []
+          split at hn
+          · simp at hn
+          · rename_i hc
+            by_cases hcrlf : c.crlf = true
+            · simp [pend, hcrlf]
+            · cases m with
+              | nil => simp at hs; simp [hc] at hs
+              | cons y ms =>
+                simp only [List.nil_append] at hs
+                have hcr : ¬ c.cr = true := by
+                  intro h; apply hc; exact ⟨h, by simpa using hcrlf⟩
+                simp [hcrlf, hcr] at hs
+                obtain ⟨l', _, h2⟩ := consL_some hs
+                simp [h2]; omega
+        · rename_i y rest'
+          simp only [List.cons_append] at hs
+          split at hn
+          · simp at hn
+          · rename_i hy
+            simp only [hy, if_false] at hs
+            split at hn
+            · simp at hn
+            · rename_i hcr
+              simp only [hcr, if_false] at hs
+              have h0 := consL_none hn
+              obtain ⟨l', h1, h2⟩ := consL_some hs
+              have := ih l' r m h0 (by rw [List.cons_append]; exact h1)
+              rw [pend_cons, h2]; simp at this ⊢; omega
+      · rename_i h13
+        simp only [h13, if_false] at hs
+        have h0 := consL_none hn
+        obtain ⟨l', h1, h2⟩ := consL_some hs
+        have := ih l' r m h0 h1
+        cases rest with
+        | nil => simp [h2]; omega
+        | cons y rest' => rw [pend_cons, h2]; simp at this ⊢; omega
+
+theorem pend_mono (c : EolCfg) (b m : Bytes) : b.length - pend c b ≤ (b ++ m).length - pend c (b ++ m) := by
+  cases m with
+  | nil => simp
+  | cons y ms =>
+    have := pend_le_one c (b ++ y :: ms)
+    have := pend_le_len c b
+    simp; omega
 
 inductive LineRes where
   | wait
@@ -149,41 +305,37 @@ def lineStep (c : EolCfg) (max : Nat) (b : Bytes) : LineRes :=
   | some (l, r) => if l.length > max then .long else .line l r
   | none => if b.length - pend c b > max then .long else .wait
 
-theorem scan_shorter (c : EolCfg) : ∀ (b l r : Bytes), scan c b = some (l, r) → r.length < b.length := by
-  intro b
-  induction b using scan.induct c with
-  | case1 => intro l r h; simp [scan] at h
-  | case2 x =>
-    intro l r h
-    simp only [scan] at h
+theorem lineStep_line_ext (c : EolCfg) (max : Nat) (b l r m : Bytes) (h : lineStep c max b = .line l r) :
+    lineStep c max (b ++ m) = .line l (r ++ m) := by
+  unfold lineStep at h
+  split at h
+  · rename_i l' r' hs
     split at h
-    · split at h <;> simp at h; simp [h.2]
-    · split at h
-      · split at h <;> simp at h; simp [h.2]
-      · simp at h
-  | case3 x y rest ih =>
-    intro l r h
-    simp only [scan] at h
-    have rec : ∀ l r, Option.map (fun p : Bytes × Bytes => (x :: p.1, p.2)) (scan c (y :: rest)) = some (l, r) → r.length < (x :: y :: rest).length := by
-      intro l r h
-      cases hs : scan c (y :: rest) with
-      | none => simp [hs] at h
+    · simp at h
+    · rename_i hl; simp at h; obtain ⟨rfl, rfl⟩ := h
+      unfold lineStep; rw [scan_ext c b l' r' m hs]; simp [hl]
+  · split at h <;> simp at h
+
+theorem lineStep_long_ext (c : EolCfg) (max : Nat) (b m : Bytes) (h : lineStep c max b = .long) :
+    lineStep c max (b ++ m) = .long := by
+  unfold lineStep at h
+  split at h
+  · rename_i l' r' hs
+    split at h
+    · rename_i hl; unfold lineStep; rw [scan_ext c b l' r' m hs]; simp [hl]
+    · simp at h
+  · rename_i hn
+    split at h
+    · rename_i hl
+      unfold lineStep
+      cases hs : scan c (b ++ m) with
+      | none => have := pend_mono c b m; simp only [List.length_append] at this ⊢; simp; omega
       | some p =>
-        obtain ⟨l', r'⟩ := p
-        simp [hs] at h
-        have := ih l' r' hs
-        rw [← h.2]; simp at this ⊢; omega
-    split at h
-    · split at h
-      · simp at h; simp [← h.2]
-      · exact rec l r h
-    · split at h
-      · split at h
-        · simp at h; simp [← h.2]; omega
-        · split at h
-          · simp at h; simp [← h.2]
-          · exact rec l r h
-      · exact rec l r h
+        obtain ⟨l, r⟩ := p
+        have := scan_late c b l r m hn hs
+        simp; omega
+    · simp at h
+
 
 /-! ## the framed incremental reader -/
 
@@ -209,7 +361,6 @@ structure Reader (σ : Type) where
 
 variable {σ : Type}
 
-/-- one decision on the buffer: consume a decided prefix, or `none` = wait for more bytes / nothing more to do -/
 def Reader.step (p : Reader σ) (s : σ) (b : Bytes) : Option (σ × Bytes) :=
   match p.need s with
   | .stop => none
@@ -219,7 +370,17 @@ def Reader.step (p : Reader σ) (s : σ) (b : Bytes) : Option (σ × Bytes) :=
     | .long => some (p.onLong s, b)
     | .line l r => some (p.onLine s l, r)
   | .bytes n => if b.length < n then none else some (p.onBytes s (b.take n), b.drop n)
-  | .all => if b.isEmpty then none else some (p.onAll s b, [])
+  | .all => if b = [] then none else some (p.onAll s b, [])
+
+theorem lineStep_line_shorter (c : EolCfg) (max : Nat) (b l r : Bytes) (h : lineStep c max b = .line l r) :
+    r.length < b.length := by
+  unfold lineStep at h
+  split at h
+  · rename_i l' r' hs
+    split at h
+    · simp at h
+    · simp at h; obtain ⟨rfl, rfl⟩ := h; exact scan_shorter c b _ _ hs
+  · split at h <;> simp at h
 
 theorem Reader.step_dec (p : Reader σ) (s : σ) (b : Bytes) (s' : σ) (b' : Bytes) (h : p.step s b = some (s', b')) :
     b'.length < b.length ∨ (b'.length = b.length ∧ p.rank s' < p.rank s) := by
@@ -229,34 +390,26 @@ theorem Reader.step_dec (p : Reader σ) (s : σ) (b : Bytes) (s' : σ) (b' : Byt
   · rename_i c hn
     split at h
     · simp at h
-    · simp at h; right; rw [← h.1, ← h.2]; exact ⟨rfl, p.long_dec s c hn⟩
+    · simp at h; obtain ⟨rfl, rfl⟩ := h; right; exact ⟨rfl, p.long_dec s c hn⟩
     · rename_i l r hl
-      simp at h
-      left
-      unfold lineStep at hl
-      split at hl
-      · rename_i l' r' hs
-        split at hl
-        · simp at hl
-        · simp at hl; rw [← h.2, ← hl.2]; exact scan_shorter c b l' r' hs
-      · split at hl <;> simp at hl
+      simp at h; obtain ⟨rfl, rfl⟩ := h
+      left; exact lineStep_line_shorter c _ b l _ hl
   · rename_i n hn
     split at h
     · simp at h
-    · simp at h
+    · simp at h; obtain ⟨rfl, rfl⟩ := h
       rename_i hlen
       by_cases h0 : n = 0
-      · right; subst h0; simp at h; rw [← h.1, ← h.2]; exact ⟨rfl, p.zero_dec s hn⟩
-      · left; rw [← h.2]; simp; omega
+      · right; subst h0; simp; exact p.zero_dec s hn
+      · left; simp; omega
   · split at h
     · simp at h
     · rename_i hb
-      simp at h; left; rw [← h.2]
+      simp at h; obtain ⟨rfl, rfl⟩ := h; left
       cases b with
       | nil => simp at hb
       | cons x xs => simp
 
-/-- parse as far as the buffer allows: final state and unconsumed bytes -/
 def Reader.run (p : Reader σ) (s : σ) (b : Bytes) : σ × Bytes :=
   match h : p.step s b with
   | none => (s, b)
@@ -268,9 +421,87 @@ decreasing_by
   · exact Prod.Lex.left _ _ h1
   · rw [h1]; exact Prod.Lex.right _ h2
 
-/-- a read arrives: the parser state carries its unconsumed buffer -/
 def Reader.feed (p : Reader σ) (st : σ × Bytes) (chunk : Bytes) : σ × Bytes :=
   p.run st.1 (st.2 ++ chunk)
+
+theorem Reader.run_none (p : Reader σ) (s : σ) (b : Bytes) (h : p.step s b = none) : p.run s b = (s, b) := by
+  rw [Reader.run.eq_def]; split
+  · rfl
+  · rename_i s' b' h'; rw [h] at h'; cases h'
+
+theorem Reader.run_some (p : Reader σ) (s : σ) (b : Bytes) (s' : σ) (b' : Bytes)
+    (h : p.step s b = some (s', b')) : p.run s b = p.run s' b' := by
+  rw [Reader.run.eq_def]; split
+  · rename_i h'; rw [h] at h'; cases h'
+  · rename_i s'' b'' h'; rw [h] at h'; cases h'; rfl
+
+/-- a decision taken on a buffer is the same decision on any extension of it (all states except `all`) -/
+theorem Reader.step_ext (p : Reader σ) (s : σ) (b : Bytes) (s' : σ) (b' m : Bytes)
+    (hne : p.need s ≠ .all) (h : p.step s b = some (s', b')) : p.step s (b ++ m) = some (s', b' ++ m) := by
+  unfold Reader.step at h ⊢
+  split at h
+  · simp at h
+  · rename_i c hn
+    split at h
+    · simp at h
+    · rename_i hl; simp at h; obtain ⟨rfl, rfl⟩ := h
+      simp [lineStep_long_ext c _ b m hl]
+    · rename_i l r hl; simp at h; obtain ⟨rfl, rfl⟩ := h
+      simp [lineStep_line_ext c _ b l _ m hl]
+  · rename_i n hn
+    split at h
+    · simp at h
+    · rename_i hlen; simp at h; obtain ⟨rfl, rfl⟩ := h
+      have h1 : ¬ (b ++ m).length < n := by simp; omega
+      have h2 : n ≤ b.length := by omega
+      simp only [List.length_append] at h1
+      simp [List.take_append_of_le_length h2, List.drop_append_of_le_length h2]; omega
+  · rename_i hn; exact absurd hn hne
+
+theorem Reader.run_all (p : Reader σ) (s : σ) (b : Bytes) (h : p.need s = .all) :
+    p.run s b = (if b = [] then s else p.onAll s b, []) := by
+  by_cases hb : b = []
+  · subst hb; rw [p.run_none]; · simp
+    unfold Reader.step; simp [h]
+  · have : p.step s b = some (p.onAll s b, []) := by unfold Reader.step; simp [h, hb]
+    rw [p.run_some _ _ _ _ this, p.run_none]; · simp [hb]
+    unfold Reader.step; simp [p.all_stay s b h]
+
+theorem Reader.run_append (p : Reader σ) (s : σ) (a m : Bytes) :
+    p.run s (a ++ m) = p.feed (p.run s a) m := by
+  induction s, a using Reader.run.induct p with
+  | case1 s a h => rw [p.run_none s a h]; rfl
+  | case2 s a s' a' h ih =>
+    by_cases hall : p.need s = .all
+    · rw [p.run_all s a hall, p.run_all s (a ++ m) hall]
+      unfold Reader.feed
+      by_cases ha : a = []
+      · subst ha; simp [p.run_all s m hall]
+      · simp only [ha, if_false, List.nil_append]
+        rw [p.run_all _ m (p.all_stay s a hall)]
+        by_cases hm : m = []
+        · subst hm; simp [ha]
+        · simp [ha, hm, p.all_hom s a m hall]
+    · have hx := p.step_ext s a s' a' m hall h
+      rw [p.run_some _ _ _ _ hx, p.run_some _ _ _ _ h, ih]
+
+/-- any fragmentation of the input gives the state and leftover of the whole input -/
+theorem Reader.feed_foldl (p : Reader σ) (s : σ) (pre : Bytes) (chunks : List Bytes) :
+    chunks.foldl p.feed (p.run s pre) = p.run s (pre ++ chunks.flatten) := by
+  induction chunks generalizing pre with
+  | nil => simp
+  | cons c cs ih =>
+      simp only [List.foldl_cons, List.flatten_cons]
+      rw [← p.run_append s pre c, ih (pre ++ c), List.append_assoc]
+
+theorem Reader.run_nil_start (p : Reader σ) (s : σ) (chunks : List Bytes) :
+    chunks.foldl p.feed (s, []) = p.run s chunks.flatten ∨ p.step s [] ≠ none := by
+  by_cases h : p.step s [] = none
+  · left
+    have := p.feed_foldl s [] chunks
+    rw [p.run_none s [] h] at this
+    simpa using this
+  · right; exact h
 
 /-! ## exceptions -/
 
@@ -771,20 +1002,23 @@ def RespSt.raise (s : RespSt) (e : Exn) : RespSt :=
 
 def RespSt.isEv (s : RespSt) : Bool := s.evented == some true
 
+/-- Respondent.retry / .leid : copied from the event source after every parse when it has a value -/
+def RespSt.curRetry (s : RespSt) : Nat := if s.isEv then s.sse.retry.getD s.retry else s.retry
+def RespSt.curLeid (s : RespSt) : Option Bytes :=
+  if s.isEv then (match s.sse.leid with | some x => some x | none => s.leid) else s.leid
+
 def RespSt.finish (s : RespSt) : RespSt :=
   let ev := if s.isEv then some s.sse.events else none
   let body := if s.isEv && (s.chunked || s.length.isNone) then s.ssePend else s.body
   let m : RespMsg := ⟨s.vminor, s.status, s.reason, s.headers, body, s.trails, s.parms, s.persisted, s.chunked,
-                      s.evented, ev, s.leid, s.retry⟩
+                      s.evented, ev, s.curLeid, s.curRetry⟩
   { s with done := s.done ++ [.ok m], phase := if s.persisted then .status true else .halted,
-           evented := if s.persisted then none else s.evented }
+           evented := if s.persisted then none else s.evented, retry := s.curRetry, leid := s.curLeid }
 
-/-- EventSource.parse() after `d` was appended to its buffer, then the copy of retry / leid -/
+/-- EventSource.parse() after `d` was appended to its buffer -/
 def RespSt.absorb (s : RespSt) (d : Bytes) : RespSt :=
   let r := sseReader.run s.sse (s.ssePend ++ d)
-  let retry := match r.1.retry with | some x => x | none => s.retry
-  let leid := match r.1.leid with | some x => some x | none => s.leid
-  { s with sse := r.1, ssePend := r.2, retry := retry, leid := leid }
+  { s with sse := r.1, ssePend := r.2 }
 
 def respStatusLine (s : RespSt) (line : Bytes) : Except Exn RespSt :=
   if line.isEmpty then .error .badStatusLine
@@ -913,6 +1147,52 @@ theorem RespSt.raise_rank (s : RespSt) (e : Exn) : respRank (s.raise e) = 0 := b
 theorem RespSt.finish_rank (s : RespSt) : respRank s.finish ≤ 1 := by
   unfold RespSt.finish; by_cases h : s.persisted <;> simp [respRank, h]
 
+theorem RespSt.absorb_absorb (s : RespSt) (a m : Bytes) : (s.absorb a).absorb m = s.absorb (a ++ m) := by
+  unfold RespSt.absorb
+  simp only
+  rw [← List.append_assoc, sseReader.run_append s.sse (s.ssePend ++ a) m]
+  rfl
+
+def respReader : Reader RespSt where
+  need := respNeed
+  onLine := respOnLine
+  onLong s := s.raise .lineTooLong
+  onBytes := respOnBytes
+  onAll := respOnAll
+  rank := respRank
+  maxLine := maxLineSize
+  long_dec := by
+    intro s c h
+    rw [RespSt.raise_rank]
+    unfold respNeed at h; unfold respRank
+    cases hp : s.phase <;> simp_all
+  zero_dec := by
+    intro s h
+    unfold respNeed at h
+    cases hp : s.phase <;> simp_all
+    · have := RespSt.finish_rank { s with body := [] }
+      simp [respOnBytes, hp, respRank] at this ⊢
+      omega
+    · simp [respOnBytes, hp, respRank]
+  all_stay := by
+    intro s a h; unfold respNeed at h
+    cases hp : s.phase <;> simp_all
+    unfold respOnAll; split <;> simp [RespSt.absorb, respNeed, hp]
+  all_hom := by
+    intro s a m h
+    unfold respOnAll
+    by_cases hev : s.isEv
+    · have : (s.absorb a).isEv = true := by simp [RespSt.absorb, RespSt.isEv] at hev ⊢; exact hev
+      simp [hev, this, RespSt.absorb_absorb]
+    · simp [hev, RespSt.isEv] at *
+      simp [RespSt.isEv, hev, List.append_assoc]
+
+/-- an event stream whose line reader raised LineTooLong ends the message as errored at that parse -/
+def RespSt.settle (s : RespSt) : RespSt :=
+  match s.phase with
+  | .untilClose => if s.isEv && s.sse.dead then s.raise .lineTooLong else s
+  | _ => s
+
 /-- the far side closed (Client.service calls respondent.close() one cycle after the last bytes), buffer `b` left -/
 def respClose (s : RespSt) (b : Bytes) : RespSt :=
   match s.phase with
@@ -926,5 +1206,38 @@ def respClose (s : RespSt) (b : Bytes) : RespSt :=
   | .trailer _ => if b.isEmpty then s.raise .premature else s
   | .untilClose => if s.isEv && s.sse.dead then s.raise .lineTooLong else s.finish
   | _ => s
+
+/-- what is observed after the reads (and, when `closed`, after the far side closed) -/
+def respFinal (st : RespSt × Bytes) (closed : Bool) : RespSt × Bytes :=
+  let s := st.1.settle
+  (if closed then respClose s st.2 else s, st.2)
+
+/-- Client.service over a sequence of reads -/
+def respRun (head : Bool) (frags : List Bytes) (closed : Bool) : RespSt × Bytes :=
+  respFinal (frags.foldl respReader.feed (({ head := head } : RespSt), [])) closed
+
+/-- Server.serviceReqs over a sequence of reads on one connection -/
+def reqRun (bad : List Bytes) (frags : List Bytes) : ReqSt × Bytes :=
+  frags.foldl reqReader.feed (({ badUrls := bad } : ReqSt), [])
+
+/-! ## one service cycle over many connections: an exception that leaves parse() aborts the loop -/
+
+def ReqSt.escapedCls (s : ReqSt) : Option String :=
+  match s.phase with
+  | .escaped c => some c
+  | _ => none
+
+/-- Server.serviceReqs: every connection gets its read and is parsed, in order; what is not caught propagates out of the
+loop (`.error cls`) and the connections after it are not served in this cycle -/
+def serviceReqs : List ((ReqSt × Bytes) × Bytes) → Except String (List (ReqSt × Bytes))
+  | [] => .ok []
+  | (st, rd) :: rest =>
+    let st' := reqReader.feed st rd
+    match st'.1.escapedCls with
+    | some c => .error c
+    | none =>
+      match serviceReqs rest with
+      | .ok r => .ok (st' :: r)
+      | .error c => .error c
 
 end Hio.Http
